@@ -123,7 +123,9 @@ def stmt_may_raise(st):
         return True
     if isinstance(st, (ast.Pass, ast.Global, ast.Nonlocal, ast.FunctionDef, ast.ClassDef, ast.Break, ast.Continue)):
         return False
-    if isinstance(st, (ast.Import, ast.ImportFrom, ast.Assert, ast.Delete)):
+    if isinstance(st, ast.Assert):
+        return expr_may_raise(st.test)       # the invariant itself is assumed (see DESIGN 10.7); its test may raise
+    if isinstance(st, (ast.Import, ast.ImportFrom, ast.Delete)):
         return True
     if isinstance(st, ast.Assign):
         if expr_may_raise(st.value):
